@@ -13,10 +13,12 @@ def run(ctx):
     else:
         st = vlib.run_tlc(ctx, "MC_Purge.tla", "MC_Purge_quick.cfg", workers=12, timeout=900)
     vlib.require_tlc_ok(st, "MC_Purge")
-    cases = gen_purge(ctx, "exact.ndjson", sample_num=None if ctx.thorough else 900, exact_only=True)
+    cases = gen_purge(ctx, "exact.ndjson", sample_num=None if ctx.thorough else 700, exact_only=True)
     if not ctx.thorough:
-        lines = open(cases).read().splitlines()
-        open(cases, "w").write("\n".join(lines[:160]) + "\n")
+        lines = open(cases).read().splitlines()[:110]
+        # plus complete indexes of more than ten chunks extended by a resumed build (seed-dependent selection)
+        late = [l for l in open(gen_purge(ctx, "late.ndjson", late=True)).read().splitlines() if '"incremental":true' in l]
+        open(cases, "w").write("\n".join(lines + late[ctx.seed % 5::5][:14]) + "\n")
     results = [vlib.replay_sharded(ctx, "purge", cases, "exact", ["--seed", str(ctx.seed)] + (["--crc"] if ctx.seed % 2 else []),
                                    shards=14, timeout=6000)]
     # the purge lock: concurrent acquisitions, candidate linearization validated against ObjectStore!Put
@@ -32,6 +34,20 @@ def run(ctx):
     if pos != n + 1:
         vlib.judge(ctx, [dict(sig="purgelock/trace-rejected", op="purgelock", step=pos,
                               got=open(tr).read().splitlines()[pos - 1:pos + 1])])
+    # all interleavings of the store calls of 2-3 concurrent unforced PurgeLock calls (gate scheduler),
+    # validated by CreateRepoTrace.tla: every call obeys ObjectStore.tla, exactly one acquisition succeeds
+    for n in (2, 3):
+        ltr = os.path.join(ctx.work, "lockrace%d.ndjson" % n)
+        lrs = os.path.join(ctx.work, "lockrace%d.json" % n)
+        vlib.run_vh(ctx, ["createrace", "--op", "lock", "--out", ltr, "--res", lrs, "--creators", str(n)])
+        results.append(vlib.load_result(ctx, lrs))
+        t2 = vlib.run_tlc(ctx, "CreateRepoTrace.tla", "CreateRepoTrace.cfg", workers=1, timeout=600, extra_files={"trace.ndjson": ltr})
+        if t2["timed_out"] or t2["position"] is None:
+            raise Infra("lock race validation did not run: " + t2["out"][-1500:])
+        p2, n2 = t2["position"]
+        if t2["violated"] or p2 != n2 + 1:
+            vlib.judge(ctx, [dict(sig="purgelock/" + ("more-than-one-holder" if t2["violated"] else "trace-rejected"), op="purgelock",
+                                  step=p2, got=open(ltr).read().splitlines()[max(0, p2 - 10):p2 + 1])])
     tot = vlib.account(ctx, results)
     ctx.notes.update(scenarios_replayed=tot["behaviours"], steps=tot["steps"], distinct_nontrivial=tot["nontrivial"],
                      rule="fault-free, crash-free scenarios of C13 (history x optional earlier, larger index x chunk size 1,2,3,7 x "
